@@ -17,7 +17,7 @@ import numpy as np
 from common import *
 
 IMPORTS = ("From Coq Require Import Reals.\nFrom Interval Require Import Tactic.\n"
-           "From CV Require Import Base.Cmp Base.Ext Base.QcLin Model.C08_NUTS Model.C08_TuneR.\nFrom Coq Require Import QArith Qcanon List.\nImport ListNotations.")
+           "From CV Require Import Base.Cmp Base.Ext Base.QcLin Model.C08_NUTS Model.C08_TuneR Model.C08_Kernel.\nFrom Coq Require Import QArith Qcanon List.\nImport ListNotations.")
 RULE = ("scripted transitions: implementation x target family (gauss, two-piece normal, quartic, box with -inf/nan/+inf outside) x "
         "max_depth x step-size class (tiny/mid/huge) x phase (fresh, second transition, after warm-up); dims 1-3, dyadic start/momentum; "
         "distinct = distinct (implementation, target, inputs, script); trivial = transitions whose first leaf already stops the "
@@ -570,12 +570,17 @@ class RunawayReport(Exception):
     pass
 
 
+class TooManyRuns(Exception):
+    pass
+
+
 class Enumerator:
     """depth-first enumeration of every outcome of a randomised run with exact weights"""
-    def __init__(self, limit=None):
+    def __init__(self, limit=None, max_runs=None):
         self.prefix, self.pos, self.weight, self.pending = [], 0, Fraction(1), []
         self.runs = 0
         self.limit = limit            # more random decisions than this in one run: the depth bound is not respected
+        self.max_runs = max_runs      # enumeration budget (the caller then picks another input)
 
     def decide(self, p):
         if self.limit is not None and self.pos >= self.limit:
@@ -600,15 +605,17 @@ class Enumerator:
             self.prefix, self.pos, self.weight, self.pending = stack.pop(), 0, Fraction(1), []
             out = runner()
             self.runs += 1
+            if self.max_runs is not None and self.runs > self.max_runs:
+                raise TooManyRuns()
             if self.weight > 0:
                 res.append((out, self.weight))
             stack.extend(self.pending)
         return res
 
 
-def kernel_from(cuqi, impl, spec, eps, max_depth, x, r, e):
+def kernel_from(cuqi, impl, spec, eps, max_depth, x, r, e, max_runs=None):
     """exact law of the next point of the real sampler started at (x, momentum r, slice draw e)"""
-    en = Enumerator(limit=2 ** (max_depth + 1) + 2 * (max_depth + 1) + 2)
+    en = Enumerator(limit=2 ** (max_depth + 1) + 2 * (max_depth + 1) + 2, max_runs=max_runs)
 
     def script(kind, a, k, idx):
         if kind == "standard_normal":
@@ -723,6 +730,177 @@ def orbit_stationary(cuqi, impl, spec, eps, max_depth, x, r, e, all_targets=Fals
             return ("the counting measure on the slice is not stationary on the orbit: sum over in-slice i of P(i->%d) = %s (%s), contributions %s"
                     % (k, float(total), total, {i: str(w) for i, w in sorted(parts.items())}))
     return None
+
+
+# ---------------- closed orbits: trajectories that wrap around (Props/C08_Cycle.v) ----------------
+# Gaussian coordinates with precision a and step size eps such that a*eps^2 is 1, 2 or 3: the leapfrog map of the coordinate
+# is a linear map of order 6, 4 or 3 with dyadic entries, so the orbit through a dyadic start closes after a few steps and
+# the binary64 arithmetic of the samplers is exact on it.  (step size 1.0 would be read as adapt_step_size=True by the
+# legacy sampler.)
+CYCLE_CONFIGS = [([8.0], 0.5, 4), ([4.0], 0.5, 6), ([12.0], 0.5, 3), ([32.0], 0.25, 4), ([16.0], 0.25, 6), ([48.0], 0.25, 3),
+                 ([8.0, 8.0], 0.5, 4), ([8.0, 12.0], 0.5, 12), ([4.0, 12.0], 0.5, 6), ([4.0, 8.0], 0.5, 12)]      # (precisions, step size, period)
+
+
+def exact_cycle(prec, eps, x0, z, nmax=12):
+    """the closed leapfrog orbit through (x0, z) in exact rationals (harness's own arithmetic): [(x, r, logd, H)] for one
+    period, or None if the orbit does not close within nmax steps"""
+    p, h = [frac(v) for v in prec], frac(eps)
+    x, r = [frac(v) for v in x0], [frac(v) for v in z]
+    start, out = (tuple(x), tuple(r)), []
+    for _ in range(nmax):
+        logd = -sum(pi * xi * xi for pi, xi in zip(p, x)) / 2
+        out.append((list(x), list(r), logd, logd - sum(ri * ri for ri in r) / 2))
+        r1 = [ri - h / 2 * pi * xi for ri, pi, xi in zip(r, p, x)]
+        x = [xi + h * ri for xi, ri in zip(x, r1)]
+        r = [ri - h / 2 * pi * xi for ri, pi, xi in zip(r1, p, x)]
+        if (tuple(x), tuple(r)) == start:
+            return out
+    return None
+
+
+def cycle_kernel(cuqi, impl, spec, eps, max_depth, cyc, logu):
+    """exact law of the new point of the REAL sampler from every in-slice state of the closed orbit (slice level logu, a
+    Fraction): {i: {point (tuple of Fractions): probability}}"""
+    laws = {}
+    for i, (x, r, _, H) in enumerate(cyc):
+        if H < logu:
+            continue
+        law = kernel_from(cuqi, impl, spec, eps, max_depth, [float(v) for v in x], [float(v) for v in r], float(H - logu), max_runs=3000)
+        out = {}
+        for pt, w in law.items():
+            key = tuple(frac(v) for v in pt)
+            out[key] = out.get(key, 0) + w
+        laws[i] = out
+    return laws
+
+
+def cycle_stationary(cyc, logu, laws):
+    """Invariance of the uniform distribution on the in-slice states of a closed orbit under the enumerated kernel of the
+    real sampler: every outcome is an in-slice point of the orbit, and for every point X of the orbit the sum over the
+    in-slice states s of P(s -> X) is the number of in-slice states with position X.  None if it holds, else a description."""
+    mult = {}
+    for (x, r, _, H) in cyc:
+        mult.setdefault(tuple(x), 0)
+        if H >= logu:
+            mult[tuple(x)] += 1
+    col = {}
+    for i, law in sorted(laws.items()):
+        if sum(law.values()) != 1:
+            return "enumerated probabilities from state %d of the closed orbit sum to %s" % (i, sum(law.values()))
+        for pt, w in law.items():
+            if pt not in mult:
+                return "from state %d of the closed orbit the sampler moved to %s, which is not on the orbit" % (i, [float(v) for v in pt])
+            if w > 0 and mult[pt] == 0:
+                return ("from state %d of the closed orbit a state outside the slice (position %s) is selected with probability %s"
+                        % (i, [float(v) for v in pt], w))
+            col[pt] = col.get(pt, 0) + w
+    for pt, m in sorted(mult.items()):
+        if col.get(pt, 0) != m:
+            return ("the uniform distribution on the in-slice states of the closed orbit (%d states, %d in the slice) is not invariant: the mass arriving at "
+                    "position %s is %s, there are %d in-slice states with this position; rows %s"
+                    % (len(cyc), sum(mult.values()), [float(v) for v in pt], col.get(pt, 0), m,
+                       {i: {str([float(v) for v in k_]): str(w) for k_, w in law.items()} for i, law in sorted(laws.items())}))
+    return None
+
+
+def gen_cycle(rng, cfg_idx, slice_kind, long_for=None):
+    """a closed orbit of the period of the configuration and a slice level: below every state / cutting the orbit / exactly
+    on a state.  long_for = (cuqi, max_depth): among 12 starts take the one on which a scripted transition of the experimental
+    sampler builds the longest trajectory (the U-turn test usually fires before a trajectory has gone around the orbit)."""
+    prec, eps, period = CYCLE_CONFIGS[cfg_idx % len(CYCLE_CONFIGS)]
+    forced = None
+    if long_for is not None:
+        best = None
+        for _ in range(12):
+            x0 = [dy(rng, -1.25, 1.25, 8) for _ in prec]
+            z = [dy(rng, -2, 2, 16) for _ in prec]
+            cyc = exact_cycle(prec, eps, x0, z)
+            if cyc is None or len(cyc) != period:
+                continue
+            us = [(rng.randint(0, 127) * 2 + 1) / 256 for _ in range(2 ** (long_for[1] + 2) + 8)]
+            try:
+                o = run_chain(long_for[0], "exp", {"kind": "gauss", "prec": prec}, eps, long_for[1], x0, [(z, 0.5, us)])[0]
+            except Exception:
+                continue
+            if best is None or len(o["leaves"]) > best[0]:
+                best = (len(o["leaves"]), x0, z)
+        if best is not None:
+            forced = (best[1], best[2])
+    for _ in range(200):
+        x0 = [dy(rng, -1.25, 1.25, 8) for _ in prec]
+        z = [dy(rng, -2, 2, 16) for _ in prec]
+        if forced is not None:
+            x0, z = forced
+        cyc = exact_cycle(prec, eps, x0, z)
+        if cyc is None or len(cyc) != period:
+            continue          # a degenerate start (a coordinate at rest): shorter orbit
+        hs = sorted(set(c[3] for c in cyc))
+        if slice_kind == "all" or len(hs) < 2:
+            logu = hs[0] - frac(dy(rng, 0, 2, 16)) - Fraction(1, 32)
+        elif slice_kind == "cut":
+            k_ = rng.randrange(len(hs) - 1)
+            logu = (hs[k_] + hs[k_ + 1]) / 2
+        else:
+            logu = hs[rng.randrange(len(hs))]          # tie: log u = H of some state exactly (log_u <= H counts it)
+        if all(frac(float(v)) == v for v in [logu] + [c[3] for c in cyc]):
+            return prec, eps, x0, z, cyc, logu
+    return None
+
+
+def cycle_cases(ctx, rng, cuqi, state, cases):
+    """closed orbits: (1) kernel-law cells: the exact law of the real sampler's new point from every in-slice state of the
+    orbit EQUALS the law of the model (Coq, check_kernel: exact rationals); (2) oracle: the enumerated kernel leaves the
+    uniform distribution on the in-slice states of the orbit invariant (C08_closed_orbit_stationary on the implementation)."""
+    plan = []
+    for k_ in range(ctx.n(20, 60)):
+        md = [1, 2, 3, 2][k_ % 4]
+        plan.append((k_, ["cut", "all", "tie"][(k_ // 2) % 3], md))
+    checked = 0
+    for (cfg_idx, slice_kind, md) in plan:
+        if md >= 3 and CYCLE_CONFIGS[cfg_idx % len(CYCLE_CONFIGS)][2] > 6:
+            md = 2          # 16-leaf trajectories: only around the short orbits (enumeration cost)
+        spec = {"kind": "gauss", "prec": CYCLE_CONFIGS[cfg_idx % len(CYCLE_CONFIGS)][0]}
+        g = None
+        for attempt in range(8):
+            g = gen_cycle(rng, cfg_idx, slice_kind, long_for=((cuqi, md) if md == 2 and attempt == 0 else None))
+            if g is None:
+                continue
+            try:         # enumeration budget: a start whose kernel needs more than 3000 scripted runs per state is replaced
+                cycle_kernel(cuqi, "exp", spec, g[1], md, g[4], g[5])
+                break
+            except TooManyRuns:
+                g = None
+            except Exception:
+                break
+        if g is None:
+            continue
+        prec, eps, x0, z, cyc, logu = g
+        for impl in ("exp", "leg"):
+            base = {"impl": impl, "target": spec, "eps": eps, "max_depth": md, "x0": x0, "z": z, "logu": float(logu), "cycle": True,
+                    "period": len(cyc), "slice": slice_kind}
+            cellp = "%s/cycle/N%d/md%d/%s" % (impl, len(cyc), md, slice_kind)
+            try:
+                laws = cycle_kernel(cuqi, impl, spec, eps, md, cyc, logu)
+                d = cycle_stationary(cyc, logu, laws)
+            except RunawayDepth:
+                laws, d = {}, "on a closed orbit the sampler takes more random decisions than a transition of max_depth %d can take" % md
+            except TooManyRuns:
+                continue
+            except Exception as ex:
+                laws, d = {}, "kernel enumeration on a closed orbit crashed: %r" % ex
+            checked += 1
+            cases.append(Case(expr="true", meta=base, cell=cellp + "/stationarity", kind="DECISION", impl_fail=d,
+                              signature="NUTS.%s.cycle_stationarity" % impl if d else ""))
+            for i, law in sorted(laws.items()):
+                x, r, _, H = cyc[i]
+                obs = clist(["(%s, %s)" % (cqvec([float(v) for v in pt]), cq(w)) for pt, w in sorted(law.items())])
+                expr = "check_kernel %s %s %s (qc %s) %s %s %s %s" % (ctarget(spec), cbool(impl == "exp"), cnat(md), cq(frac(eps) / 2),
+                                                                     cqvec([float(v) for v in x]), cqvec([float(v) for v in r]), cq(H - logu), obs)
+                meta = dict(base)
+                meta.update({"state": i, "kernel_law": True})
+                cases.append(Case(expr=expr, meta=meta, cell=cellp + "/kernel-law", kind="EXACT", impl_fail=d,
+                                  signature="NUTS.%s.cycle_stationarity" % impl if d else ""))
+    return checked
 
 
 # ---------------- generator ----------------
@@ -1282,6 +1460,7 @@ def run(ctx):
     tie_cases(ctx, rng, cuqi, state, cases)
     scale_cases(ctx, rng, cuqi, state, cases)
     lesson4_cases(ctx, rng, cuqi, state, cases)
+    cyc_checked = cycle_cases(ctx, rng, cuqi, state, cases)
     # how many of the scripted transitions were decided with all margins (sample)
     small = [t for t in inners if len(t) < 2500]
     sample = rng.sample(small, min(len(small), 40))
@@ -1348,7 +1527,7 @@ def run(ctx):
             cases.append(Case(expr="true", meta=meta, cell="%s/orbit-stationarity/md2-cut" % impl, kind="DECISION", impl_fail=d,
                               signature="NUTS.%s.orbit_stationarity" % impl if d else ""))
     return Result(cases=cases, rule=RULE,
-                  extra={"orbit_stationarity_checks": checked, "legacy_step_size_1.0_replaced_by_FindGoodEpsilon": state["leg_eps_replaced"],
+                  extra={"orbit_stationarity_checks": checked, "closed_orbit_stationarity_checks": cyc_checked, "legacy_step_size_1.0_replaced_by_FindGoodEpsilon": state["leg_eps_replaced"],
                          "legacy_refuses_+inf": state["leg_guard"],
                          "transitions_skipped_for_float_overflow": state["skipped_float_overflow"]},
                   assumptions=["targets are user-defined polynomial log-densities (Gaussian with diagonal precision, two-piece normal, quartic, box-truncated with NaN/-inf/+inf outside)",
@@ -1364,6 +1543,8 @@ def oracle(ctx, meta):
     """a model/implementation disagreement on a scripted transition: look for a failure of the property itself at the same
     inputs (per-transition clauses, then stationarity on the orbit through the start of that transition)"""
     import cuqi
+    if meta.get("cycle"):
+        return cycle_replay(cuqi, meta)
     if "scripts" not in meta:
         return None
     _ORACLE_BUDGET["calls"] += 1
@@ -1381,6 +1562,16 @@ def oracle(ctx, meta):
     if d:
         _ORACLE_BUDGET["confirmed"] += 1
     return d
+
+
+def cycle_replay(cuqi, m):
+    """closed-orbit cells: re-run the enumeration of the real kernel on the orbit and the invariance check"""
+    spec = m["target"]
+    cyc = exact_cycle(spec["prec"], m["eps"], m["x0"], m["z"])
+    if cyc is None:
+        return None
+    laws = cycle_kernel(cuqi, m["impl"], spec, m["eps"], m["max_depth"], cyc, frac(m["logu"]))
+    return cycle_stationary(cyc, frac(m["logu"]), laws)
 
 
 def moment_test(cuqi, impl, prec, eps, md, n_chains=1500, n_tr=3, seed=12345):
@@ -1486,6 +1677,8 @@ def known_witnesses(ctx):
 def classify(meta, detail):
     if meta.get("moment_test"):
         return "NUTS.%s.moments" % meta.get("impl", "?")
+    if meta.get("cycle"):
+        return "NUTS.%s.cycle_stationarity" % meta.get("impl", "?")
     return "NUTS.%s.orbit_stationarity" % meta.get("impl", "?")
 
 
@@ -1499,6 +1692,16 @@ def replay(ctx, meta):
         return 0
     if m.get("moment_test"):
         print("moment test:", moment_test(cuqi, m["impl"], *m["moment_test"]) or "within 6 sigma")
+        return 0
+    if m.get("cycle"):
+        spec = m["target"]
+        cyc = exact_cycle(spec["prec"], m["eps"], m["x0"], m["z"])
+        print("closed leapfrog orbit (x, r, H):", [([float(v) for v in c[0]], [float(v) for v in c[1]], float(c[3])) for c in cyc], "log u =", m["logu"])
+        laws = cycle_kernel(cuqi, m["impl"], spec, m["eps"], m["max_depth"], cyc, frac(m["logu"]))
+        for i, law in sorted(laws.items()):
+            print("  enumerated law of the real sampler from state %d:" % i, {str([float(v) for v in k_]): str(w) for k_, w in sorted(law.items())})
+        print("invariance of the uniform distribution on the in-slice states of the closed orbit under the real sampler:",
+              cycle_stationary(cyc, frac(m["logu"]), laws) or "holds")
         return 0
     if m.get("orbit"):
         print("stationarity of the counting measure on the orbit under the real sampler:",
